@@ -575,9 +575,16 @@ class Oracle:
     def _evicted_keys(self, obs, post_files):
         w = self.w
         out = set()
+        requested = set(obs.op.get("keys") or [])
         for (p, ino, at, mt, size, how) in obs.unlinks:
-            if how == "unlink" and p not in post_files and self.k_of(p) is not None:
-                out.add(self.k_of(p))
+            k = self.k_of(p)
+            if how != "unlink" or k is None:
+                continue
+            # a file that is there again afterwards was re-created: for a requested key that is a refetch (e.g.
+            # after a validator rejection), for any other key the entry was evicted and a zombie worker of an
+            # earlier failed request published its late copy afterwards (an unregistered orphan)
+            if p not in post_files or k not in requested:
+                out.add(k)
         return out
 
     def _unattributed_evictions(self, obs, post_files):
